@@ -143,6 +143,102 @@ class IfExpToIf(ast.NodeTransformer):
     generic_visit = DropElse.generic_visit
 
 
+class IfToIfExp(ast.NodeTransformer):
+    """if c: x = a else: x = b -> x = a if c else b;  if c: return a [else:] return b -> return a if c else b"""
+
+    def _block(self, stmts):
+        out = []
+        i = 0
+        while i < len(stmts):
+            s = stmts[i]
+            nxt = stmts[i + 1] if i + 1 < len(stmts) else None
+            if isinstance(s, ast.If) and len(s.body) == 1 and len(s.orelse) == 1 and isinstance(s.body[0], ast.Assign) and isinstance(s.orelse[0], ast.Assign) \
+                    and len(s.body[0].targets) == 1 and isinstance(s.body[0].targets[0], ast.Name) and ast.dump(s.body[0].targets[0]) == ast.dump(s.orelse[0].targets[0]) \
+                    and len(s.orelse[0].targets) == 1:
+                out.append(ast.copy_location(ast.Assign(targets=[s.body[0].targets[0]], value=ast.IfExp(test=s.test, body=s.body[0].value, orelse=s.orelse[0].value)), s))
+            elif isinstance(s, ast.If) and len(s.body) == 1 and isinstance(s.body[0], ast.Return) and s.body[0].value is not None and not s.orelse \
+                    and isinstance(nxt, ast.Return) and nxt.value is not None:
+                out.append(ast.copy_location(ast.Return(value=ast.IfExp(test=s.test, body=s.body[0].value, orelse=nxt.value)), s))
+                i += 1
+            elif isinstance(s, ast.If) and len(s.body) == 1 and len(s.orelse) == 1 and isinstance(s.body[0], ast.Return) and isinstance(s.orelse[0], ast.Return) \
+                    and s.body[0].value is not None and s.orelse[0].value is not None:
+                out.append(ast.copy_location(ast.Return(value=ast.IfExp(test=s.test, body=s.body[0].value, orelse=s.orelse[0].value)), s))
+            else:
+                out.append(s)
+            i += 1
+        return out
+
+    generic_visit = DropElse.generic_visit
+
+
+class MergeNestedIf(ast.NodeTransformer):
+    """if a: (if b: S) -> if a and b: S   (no else on either)"""
+
+    def visit_If(self, node):
+        self.generic_visit(node)
+        if not node.orelse and len(node.body) == 1 and isinstance(node.body[0], ast.If) and not node.body[0].orelse:
+            inner = node.body[0]
+            vals = (node.test.values if isinstance(node.test, ast.BoolOp) and isinstance(node.test.op, ast.And) else [node.test]) + \
+                   (inner.test.values if isinstance(inner.test, ast.BoolOp) and isinstance(inner.test.op, ast.And) else [inner.test])
+            return ast.copy_location(ast.If(test=ast.BoolOp(op=ast.And(), values=vals), body=inner.body, orelse=[]), node)
+        return node
+
+
+class SplitAndIf(ast.NodeTransformer):
+    """if a and b: S (no else) -> if a: if b: S"""
+
+    def visit_If(self, node):
+        self.generic_visit(node)
+        if not node.orelse and isinstance(node.test, ast.BoolOp) and isinstance(node.test.op, ast.And) and len(node.test.values) >= 2:
+            rest = node.test.values[1:]
+            inner = ast.copy_location(ast.If(test=rest[0] if len(rest) == 1 else ast.BoolOp(op=ast.And(), values=rest), body=node.body, orelse=[]), node)
+            return ast.copy_location(ast.If(test=node.test.values[0], body=[inner], orelse=[]), node)
+        return node
+
+
+class Walrus(ast.NodeTransformer):
+    """x = e; if <test reading x first>: -> if <test with (x := e) at the first read>   (x a plain local, e evaluated first in the test anyway)"""
+
+    def _block(self, stmts):
+        out = []
+        i = 0
+        while i < len(stmts):
+            s = stmts[i]
+            nxt = stmts[i + 1] if i + 1 < len(stmts) else None
+            done = False
+            if isinstance(s, ast.Assign) and len(s.targets) == 1 and isinstance(s.targets[0], ast.Name) and isinstance(nxt, ast.If):
+                name = s.targets[0].id
+                t = nxt.test
+                # only the simplest shapes: `x <op> k`, `x is None`, `not x`, `x`, `f(x)` with f a plain name/attribute
+                first = None
+                if isinstance(t, ast.Compare) and isinstance(t.left, ast.Name) and t.left.id == name:
+                    first = ('cmp',)
+                elif isinstance(t, ast.Name) and t.id == name:
+                    first = ('name',)
+                elif isinstance(t, ast.UnaryOp) and isinstance(t.op, ast.Not) and isinstance(t.operand, ast.Name) and t.operand.id == name:
+                    first = ('not',)
+                elif isinstance(t, ast.Call) and isinstance(t.func, (ast.Name, ast.Attribute)) and t.args and isinstance(t.args[0], ast.Name) and t.args[0].id == name \
+                        and (isinstance(t.func, ast.Name) or isinstance(t.func.value, ast.Name) and t.func.value.id != name):
+                    first = ('call',)
+                if first and name not in {x.id for x in ast.walk(s.value) if isinstance(x, ast.Name)}:
+                    w = ast.NamedExpr(target=ast.Name(id=name, ctx=ast.Store()), value=s.value)
+                    if first[0] == 'cmp':
+                        t.left = w
+                    elif first[0] == 'name':
+                        nxt.test = w
+                    elif first[0] == 'not':
+                        t.operand = w
+                    else:
+                        t.args[0] = w
+                    done = True
+            if not done:
+                out.append(s)
+            i += 1
+        return out
+
+    generic_visit = DropElse.generic_visit
+
+
 class TempCond(ast.NodeTransformer):
     def _block(self, stmts):
         out = []
@@ -156,7 +252,7 @@ class TempCond(ast.NodeTransformer):
     generic_visit = DropElse.generic_visit
 
 
-TRANSFORMS = {'de-morgan': DeMorgan, 'ifexp-to-if': IfExpToIf, 'temp-cond': TempCond, 'flip-cmp': FlipCmp, 'swap-mult': SwapMult, 'invert-if': InvertIf, 'drop-else': DropElse, 'temp-return': TempReturn, 'temp-arg': TempArg}
+TRANSFORMS = {'if-to-ifexp': IfToIfExp, 'merge-nested-if': MergeNestedIf, 'split-and-if': SplitAndIf, 'walrus': Walrus, 'de-morgan': DeMorgan, 'ifexp-to-if': IfExpToIf, 'temp-cond': TempCond, 'flip-cmp': FlipCmp, 'swap-mult': SwapMult, 'invert-if': InvertIf, 'drop-else': DropElse, 'temp-return': TempReturn, 'temp-arg': TempArg}
 
 
 def variants():
